@@ -194,9 +194,23 @@ func runC12(c *sim.Ctx) {
 			var err error
 			rs := "ReadMessageBegin/BufferReader"
 			c.GuardNoOOM(rs, func() { gn, gt, gs, err = br.ReadMessageBegin() })
-			judgeEnvelope(c, rs, env, gn, gt, gs, int(br.Readn()), err)
+			consumed := int(br.Readn())
+			judgeEnvelope(c, rs, env, gn, gt, gs, consumed, err)
 			br.Recycle()
+			// the name must stay the same after the reader's buffer is released, compacted and
+			// reused by the next message or by another user of the pool
+			more := sim.KeyedBytes(uint64(c.Index)+99, 0, 64)
+			_, _ = dr.Next(len(d) - consumed)
 			dr.Release(nil)
+			co := mcache.Malloc(4096)
+			for i := range co {
+				co[i] = 0x5C
+			}
+			mcache.Free(co)
+			_ = more
+			if env.Kind == ref.EnvOK && err == nil && gn != string(env.Name) {
+				c.Fail("ENVELOPE_MISMATCH", rs, sim.F{"after_release": true}, "the method name returned by the stream reader changed after the reader was released (now %q..., sent %q...)", trunc(gn, 16), trunc(string(env.Name), 16))
+			}
 		}
 	}
 	fastMsgByProduct(c, st)
@@ -277,4 +291,11 @@ func fastMsgByProduct(c *sim.Ctx, st *sim.Stream) {
 	if got.TypeID() != exType || got.Msg() != msgText {
 		c.Fail("FASTMSG", "UnmarshalFastMsg", sim.F{}, "payload (%d,%q) came back as (%d,%q)", exType, msgText, got.TypeID(), got.Msg())
 	}
+}
+
+func trunc(s string, n int) string {
+	if len(s) > n {
+		return s[:n]
+	}
+	return s
 }
